@@ -25,6 +25,7 @@ Program (lines form)
       ['error', expr] ['onerror', n] ['resume', None|0|'next'|n]
       ['read', [target, ...]] ['data', [[raw, sval|None, nval|None], ...]] ['restore', n|None]
       ['dim', 'A%', size]
+      ['rem', text] / ['rem', text, "'"]   REM text / ' text (last statement of its line)
       ['fault', basic_text, code]     opaque statement that always raises `code` (documented GW-BASIC error)
       ['deffn', 'FNA', body_text, code|None, 'soft'?]   DEF FNA(X)=body_text ; calling it raises `code` (None: no error)
       ['fncall', basic_text, 'FNA']   a statement that calls FNA once: the error of the body is an error of THIS statement
@@ -775,6 +776,10 @@ class Machine(object):
             self.pc = (self.index[where], 0)
 
     # DATA
+    def _x_rem(self, li, oi, op):
+        # a remark takes the rest of its line
+        self.pc = (li, len(self._ops(li)))
+
     def _x_data(self, li, oi, op):
         self._advance(li, oi)
 
